@@ -210,26 +210,28 @@ fn c05_cm2_mcc_value() {
 }
 
 // ---------------------------------------------------------------- 3 classes
-// @unit class=bounded tier=quick bound="3x3,cells 0..15" fns=linfa::metrics_classification::ConfusionMatrix::accuracy
+// @unit class=bounded tier=thorough mem=heavy bound="3x3,cells 0..3" fns=linfa::metrics_classification::ConfusionMatrix::accuracy
 #[kani::proof]
 #[kani::unwind(11)]
+#[kani::solver(kissat)]
 #[kani::stub(alloc::fmt::format, fmt_stub)]
 fn c05_cm3_accuracy() {
-    let c = cells::<3>(15);
+    let c = cells::<3>(3);
     let cm = cm_of(&c);
     let tr = c[0][0] as i32 + c[1][1] as i32 + c[2][2] as i32;
     let s = total(&c);
     assert!(feq(cm.accuracy(), tr as f32 / s as f32));
-    kani::cover!(s == 100 && tr == 25);
+    kani::cover!(s == 20 && tr == 5);
 }
 
 // macro average over the classes of the one-vs-all precision TP_i / (TP_i + FP_i)
-// @unit class=bounded tier=quick mem=heavy bound="3x3,cells 0..15" fns=linfa::metrics_classification::ConfusionMatrix::precision
+// @unit class=bounded tier=thorough mem=heavy bound="3x3,cells 0..3" fns=linfa::metrics_classification::ConfusionMatrix::precision
 #[kani::proof]
 #[kani::unwind(11)]
+#[kani::solver(kissat)]
 #[kani::stub(alloc::fmt::format, fmt_stub)]
 fn c05_cm3_precision_macro_textbook() {
-    let c = cells::<3>(15);
+    let c = cells::<3>(3);
     let cm = cm_of(&c);
     let mut q = [0f32; 3];
     for i in 0..3 { let (tp, fp, _fn, _tn) = ova(&c, i); q[i] = tp as f32 / (tp + fp) as f32; }
@@ -238,12 +240,13 @@ fn c05_cm3_precision_macro_textbook() {
 }
 
 // macro average over the classes of the one-vs-all recall TP_i / (TP_i + FN_i)
-// @unit class=bounded tier=quick mem=heavy bound="3x3,cells 0..15" fns=linfa::metrics_classification::ConfusionMatrix::recall
+// @unit class=bounded tier=thorough mem=heavy bound="3x3,cells 0..3" fns=linfa::metrics_classification::ConfusionMatrix::recall
 #[kani::proof]
 #[kani::unwind(11)]
+#[kani::solver(kissat)]
 #[kani::stub(alloc::fmt::format, fmt_stub)]
 fn c05_cm3_recall_macro_textbook() {
-    let c = cells::<3>(15);
+    let c = cells::<3>(3);
     let cm = cm_of(&c);
     let mut q = [0f32; 3];
     for i in 0..3 { let (tp, _fp, fnn, _tn) = ova(&c, i); q[i] = tp as f32 / (tp + fnn) as f32; }
@@ -266,18 +269,18 @@ fn c05_cm3_mcc_roots() {
     kani::cover!(a > 0 && b > 0 && a != b);
 }
 
-// @unit class=bounded tier=thorough mem=heavy bound="3x3,cells 0..3,both marginal terms perfect squares" fns=linfa::metrics_classification::ConfusionMatrix::mcc
+// @unit class=bounded tier=thorough mem=heavy bound="3x3,cells 0..4,both marginal terms perfect squares" fns=linfa::metrics_classification::ConfusionMatrix::mcc
 #[kani::proof]
 #[kani::unwind(11)]
 #[kani::solver(kissat)]
 #[kani::stub(alloc::fmt::format, fmt_stub)]
 #[kani::stub(f32::sqrt, sqrt_tab32)]
 fn c05_cm3_mcc_value() {
-    let c = cells::<3>(3);
+    let c = cells::<3>(4);
     let cm = cm_of(&c);
     let (num, a, b) = mcc_terms(&c);
     let (ra, rb): (i32, i32) = (kani::any(), kani::any());
-    kani::assume(ra >= 0 && ra <= 27 && rb >= 0 && rb <= 27);
+    kani::assume(ra >= 0 && ra <= 36 && rb >= 0 && rb <= 36);
     kani::assume(a == announce_root(0, ra) && b == announce_root(1, rb));
     unsafe { SQ_ARG[2] = (a * b) as f32; SQ_RES[2] = (ra * rb) as f32; }
     let r = cm.mcc();
@@ -307,12 +310,13 @@ fn c05_cm2_one_vs_all() {
     kani::cover!(c[0][1] != c[1][0]);
 }
 
-// @unit class=bounded tier=quick mem=heavy bound="3x3,cells 0..15" fns=linfa::metrics_classification::ConfusionMatrix::split_one_vs_all
+// @unit class=bounded tier=thorough mem=heavy bound="3x3,cells 0..3" fns=linfa::metrics_classification::ConfusionMatrix::split_one_vs_all
 #[kani::proof]
 #[kani::unwind(11)]
+#[kani::solver(kissat)]
 #[kani::stub(alloc::fmt::format, fmt_stub)]
 fn c05_cm3_one_vs_all() {
-    let c = cells::<3>(15);
+    let c = cells::<3>(3);
     let cm = cm_of(&c);
     let out = cm.split_one_vs_all();
     assert!(out.len() == 3);
@@ -329,7 +333,7 @@ fn c05_cm3_one_vs_all() {
 // unordered pair i<j, restricted to the samples whose predicted and true label are both in {i,j}:
 // [[C_ii, C_ij], [C_ji, C_jj]], pairs in row-major order.
 // Weak form (holds whatever else the vector contains): every pair matrix occurs, in that relative order.
-// @unit class=bounded tier=quick mem=heavy bound="3x3,cells 0..15" fns=linfa::metrics_classification::ConfusionMatrix::split_one_vs_one
+// @unit class=bounded tier=thorough mem=heavy bound="3x3,cells 0..15" fns=linfa::metrics_classification::ConfusionMatrix::split_one_vs_one
 #[kani::proof]
 #[kani::unwind(11)]
 #[kani::stub(alloc::fmt::format, fmt_stub)]
